@@ -167,6 +167,108 @@ inline bool hasString(const MValue& m) {
   return !m.o.empty();
 }
 
+// ---- documents larger than the inline pool table: fresh, re-used after a large document, and nested destinations inside a
+// host that was itself produced by deserializeJson (hence shrunk: heap pool table of exactly count_ entries)
+inline std::string bigArray(size_t k, size_t base = 0) {
+  std::string t = "[";
+  for (size_t i = 0; i < k; i++) t += (i ? "," : "") + std::to_string((base + i) % 1000);
+  return t + "]";
+}
+inline std::string bigObject(size_t k) {
+  std::string t = "{";
+  for (size_t i = 0; i < k; i++) t += std::string(i ? "," : "") + "\"k" + std::to_string(i) + "\":" + std::to_string(i % 1000);
+  return t + "}";
+}
+inline std::string checkBigArray(JsonVariantConst v, size_t k, size_t base = 0) {
+  if (!v.is<JsonArrayConst>()) return "not an array; ";
+  if (v.size() != k) return "size() is " + std::to_string(v.size()) + ", expected " + std::to_string(k) + "; ";
+  size_t i = 0;
+  for (JsonVariantConst e : v.as<JsonArrayConst>()) {
+    if (!e.is<int>() || e.as<size_t>() != (base + i) % 1000) return "element " + std::to_string(i) + " reads " + e.as<std::string>() + "; ";
+    i++;
+  }
+  return i == k ? "" : "iteration yields " + std::to_string(i) + " elements; ";
+}
+inline std::string checkBigObject(JsonVariantConst v, size_t k) {
+  if (!v.is<JsonObjectConst>()) return "not an object; ";
+  if (v.size() != k) return "size() is " + std::to_string(v.size()) + ", expected " + std::to_string(k) + "; ";
+  size_t i = 0;
+  for (JsonPairConst p : v.as<JsonObjectConst>()) {
+    if (std::string(p.key().c_str()) != "k" + std::to_string(i) || p.value().as<size_t>() != i % 1000) return "member " + std::to_string(i) + " is wrong; ";
+    i++;
+  }
+  if (k && v["k" + std::to_string(k - 1)].as<size_t>() != (k - 1) % 1000) return "lookup of the last key fails; ";
+  return i == k ? "" : "iteration yields " + std::to_string(i) + " members; ";
+}
+
+inline void largeFamily(Ctx& C) {
+  const size_t CAP = ARDUINOJSON_POOL_CAPACITY, INIT = ARDUINOJSON_INITIAL_POOL_COUNT;
+  const size_t LIMIT = sizeof(detail::SlotId) >= 4 ? size_t(1) << 30 : (size_t(1) << (8 * sizeof(detail::SlotId))) - 1;
+  std::vector<size_t> Ks = {INIT * CAP - 1, INIT * CAP, INIT * CAP + 1, 2 * INIT * CAP + 1};
+  for (size_t K : Ks) {
+    if (2 * K + 8 > LIMIT) continue;  // must stay within the slot-id range of this geometry (C19 owns the limit itself)
+    for (int shape = 0; shape < 4; shape++) {
+      if (!C.take()) continue;
+      static const char* names[] = {"fresh", "reused-after-large", "member-of-parsed-host", "element-of-parsed-host"};
+      C.begin("in:json:large|K=" + std::to_string(K) + "|dst=" + names[shape]);
+      LedgerAllocator A;
+      std::string problems;
+      {
+        JsonDocument doc(&A);
+        auto parse = [&](JsonVariant dstv, bool intoDoc, const std::string& text, const char* what) {
+          DeserializationError err = intoDoc ? deserializeJson(doc, text) : deserializeJson(dstv, text);
+          if (err != DeserializationError::Ok) problems += std::string(what) + ": returned " + err.c_str() + "; ";
+          return err == DeserializationError::Ok;
+        };
+        if (shape == 0) {
+          if (parse(JsonVariant(), true, bigArray(K), "array")) problems += checkBigArray(doc.as<JsonVariantConst>(), K);
+          if (parse(JsonVariant(), true, bigObject(K / 2), "object")) problems += checkBigObject(doc.as<JsonVariantConst>(), K / 2);
+        } else if (shape == 1) {
+          // the same document receives a large text, the same again, a large object, a larger array, a tiny one, a large one
+          parse(JsonVariant(), true, bigArray(K), "first");
+          if (parse(JsonVariant(), true, bigArray(K, 7), "second")) problems += checkBigArray(doc.as<JsonVariantConst>(), K, 7);
+          if (parse(JsonVariant(), true, bigObject(K / 2), "third")) problems += checkBigObject(doc.as<JsonVariantConst>(), K / 2);
+          if (2 * K + 8 <= LIMIT && parse(JsonVariant(), true, bigArray(K + CAP + 1), "fourth")) problems += checkBigArray(doc.as<JsonVariantConst>(), K + CAP + 1);
+          if (parse(JsonVariant(), true, "[1]", "tiny") && (doc.size() != 1 || doc[0] != 1)) problems += "tiny document wrong after large ones; ";
+          doc.clear();
+          if (parse(JsonVariant(), true, bigArray(K, 3), "after clear()")) problems += checkBigArray(doc.as<JsonVariantConst>(), K, 3);
+        } else {
+          // host produced by deserializeJson (shrunk); then nested destinations that need 1, 2 and INIT+1 further pools
+          bool member = shape == 2;
+          std::string host = member ? "{\"x\":\"old\",\"pad\":" + bigArray(K) + ",\"after\":7}" : "[1,\"old\"," + bigArray(K) + ",3]";
+          if (3 * K + 3 * CAP + 16 <= LIMIT && parse(JsonVariant(), true, host, "host")) {
+            for (size_t inner : {size_t(1), CAP + 1, (INIT + 1) * CAP + 1}) {
+              if (K + inner + 3 * CAP + 16 > LIMIT) continue;
+              JsonVariant d = member ? doc["x"].as<JsonVariant>() : doc[1].as<JsonVariant>();
+              if (parse(d, false, bigArray(inner, 5), "nested")) {
+                problems += checkBigArray(member ? doc["x"].as<JsonVariantConst>() : doc[1].as<JsonVariantConst>(), inner, 5);
+                problems += checkBigArray(member ? doc["pad"].as<JsonVariantConst>() : doc[2].as<JsonVariantConst>(), K);
+                if (member ? (doc["after"] != 7 || doc.size() != 3) : (doc[0] != 1 || doc[3] != 3 || doc.size() != 4)) problems += "siblings of the nested destination changed; ";
+              }
+            }
+          }
+        }
+        problems += A.takeErrors();
+      }
+      if (!A.live.empty()) problems += "blocks live after destruction; ";
+      problems += A.takeErrors();
+      if (!problems.empty()) C.fail("large", problems);
+      C.nontrivial();
+      C.outcome(std::string("large-") + names[shape]);
+      C.end();
+    }
+  }
+  C.bound("documents of INIT*CAP-1, INIT*CAP, INIT*CAP+1 and 2*INIT*CAP+1 slots (pool-table boundaries of this geometry): fresh, the same document "
+          "re-used for a sequence of large and small texts, and member / element destinations inside a host that was itself parsed (shrunk)");
+}
+
+// literals whose value depends on the interplay of mantissa and exponent, zero in every spelling, more than 7 significant digits
+inline std::vector<const char*> extraNumbers() {
+  return {"0.0", "-0.0", "0e0", "0E+512", "0.0e999", "-0e-999", "0.000e-5", "1e-600", "1000000000e-309", "0.0000000001e310",
+          "3.141592653589793", "-0.000123456789012", "123456789.125", "1.7976931348623157e308", "4.9e-324", "2.2250738585072014e-308",
+          "0.1", "1e23", "9007199254740993", "0.30000000000000004"};
+}
+
 inline void run(Ctx& C) {
   const bool T = C.thorough();
   int N = atoi(C.opt("nodes", "3").c_str());
@@ -248,6 +350,16 @@ inline void run(Ctx& C) {
     C.end();
   };
   G.upTo(N, perTree);
+  for (const char* lit : extraNumbers()) {
+    MValue leaf = numLeaf(lit), arr = MValue::array(), obj = MValue::object();
+    arr.a.push_back(leaf);
+    obj.o.emplace_back("a", leaf);
+    perTree(leaf);
+    perTree(arr);
+    perTree(obj);
+  }
+  C.bound("plus " + std::to_string(extraNumbers().size()) + " further number literals (zero in every spelling, mantissa/exponent interplay, > 7 significant digits) alone, in an array, in an object");
+  largeFamily(C);
   int deepN = atoi(C.opt("deep-nodes", T ? "4" : "0").c_str());
   if (deepN > N) {
     // larger trees: the reduced leaf alphabet everywhere below the root
